@@ -2,6 +2,7 @@
 // records (offset, dimensions, elements read through the view) for re-computation by TLC (TensorTrace.tla).
 //   tensor_driver <out.ndjson> <seed> <maxdim-rank4> <maxdim-rank5> <random-cases>
 #include <algorithm>
+#include <limits>
 #include "trace.h"
 #include <nano/tensor.h>
 #include <nano/tensor/algorithm.h>
@@ -69,6 +70,146 @@ auto make_root(const tensor_dims_t<trank>& dims)
     return root;
 }
 
+// ---- writes through mutable views: the k-th element of the view (lexicographic order of its own indices) receives a marker that
+// encodes k and differs from every flat index (negative for signed scalars, >= size for unsigned ones); the root is then scanned
+// element by element: `wn` = number of root elements that changed, `wland[k]` = the flat position where marker k arrived.
+template <class tscalar>
+tscalar marker(const int64_t k, const int64_t size)
+{
+    if constexpr (std::is_unsigned_v<tscalar>)
+    {
+        return static_cast<tscalar>(size + k);
+    }
+    else
+    {
+        return static_cast<tscalar>(-(k + 1));
+    }
+}
+
+template <class tscalar, class tview, class... tidx>
+void write_all(tview& view, int64_t& k, const int64_t size, tidx... idx)
+{
+    if constexpr (sizeof...(idx) == tview::rank())
+    {
+        view(idx...) = marker<tscalar>(k++, size);
+    }
+    else
+    {
+        for (tensor_size_t i = 0; i < view.template size<sizeof...(idx)>(); ++i)
+        {
+            write_all<tscalar>(view, k, size, idx..., i);
+        }
+    }
+}
+
+template <class tscalar, class tview>
+void write_view(tview view, const int64_t size)
+{
+    int64_t k = 0;
+    if constexpr (is_eigen_v<tview>)
+    {
+        for (tensor_size_t r = 0; r < view.rows(); ++r)
+        {
+            for (tensor_size_t c = 0; c < view.cols(); ++c)
+            {
+                view(r, c) = marker<tscalar>(k++, size);
+            }
+        }
+    }
+    else
+    {
+        static_assert(!tview::resizable, "a view, not an owning copy");
+        write_all<tscalar>(view, k, size);
+    }
+}
+
+template <class tscalar, class troot, class tview>
+void add_write(vt::J& j, troot& root, tview view, const int64_t count, const bool full)
+{
+    const auto size = static_cast<int64_t>(root.size());
+    write_view<tscalar>(view, size);
+    std::vector<int64_t> landing(static_cast<size_t>(count), -1);
+    int64_t              wn  = 0;
+    bool                 bad = false;
+    for (tensor_size_t i = 0; i < size; ++i)
+    {
+        const tscalar v = root(i);
+        if (v != static_cast<tscalar>(i))
+        {
+            ++wn;
+            int64_t k = 0;
+            if constexpr (std::is_unsigned_v<tscalar>)
+            {
+                k = static_cast<int64_t>(v) - size;
+            }
+            else
+            {
+                k = -static_cast<int64_t>(v) - 1;
+            }
+            if (k >= 0 && k < count && landing[static_cast<size_t>(k)] < 0)
+            {
+                landing[static_cast<size_t>(k)] = i;
+            }
+            else
+            {
+                bad = true;
+            }
+            root(i) = static_cast<tscalar>(i); // restore
+        }
+    }
+    j.i("wn", wn);
+    if (full)
+    {
+        j.a("wland", landing);
+    }
+    else
+    {
+        bool contig = !bad;
+        for (size_t k = 0; contig && k + 1 < landing.size(); ++k)
+        {
+            contig = landing[k + 1] == landing[k] + 1;
+        }
+        j.i("wfirst", landing.empty() ? 0 : landing[0]).b("wcontig", contig);
+    }
+}
+
+// a view read through its constant form and written through its mutable form
+template <class tscalar, class troot, class tcview, class tmview>
+vt::J rw_event(const char* e, troot& root, const tcview& cview, tmview mview)
+{
+    auto j = view_event(e, root, cview);
+    add_write<tscalar>(j, root, mview, static_cast<int64_t>(cview.size()), cview.size() <= 64);
+    return j;
+}
+
+// Eigen vector / matrix maps: elements in row-major order
+template <class tscalar, class troot, class tcview, class tmview>
+vt::J eigen_rw_event(const char* e, troot& root, const tcview& cview, tmview mview, const std::vector<int64_t>& vdims_)
+{
+    std::vector<int64_t> elems;
+    int64_t              sum = 0;
+    for (tensor_size_t r = 0; r < cview.rows(); ++r)
+    {
+        for (tensor_size_t c = 0; c < cview.cols(); ++c)
+        {
+            elems.push_back(static_cast<int64_t>(cview(r, c)));
+            sum += static_cast<int64_t>(cview(r, c)) % 1000;
+        }
+    }
+    const auto full = elems.size() <= 64;
+    const auto off  = cview.size() == 0 && cview.data() == nullptr ? 0 : cview.data() - root.data();
+    vt::J      j(e);
+    j.a("d", vdims(root.dims())).i("off", off).a("dims", vdims_).i("count", cview.size());
+    j.b("inside", cview.size() == 0 || (off >= 0 && off + cview.size() <= root.size())).b("full", full);
+    if (full)
+    {
+        j.a("elems", elems);
+    }
+    j.i("sum", sum);
+    add_write<tscalar>(j, root, mview, static_cast<int64_t>(cview.size()), full);
+    return j;
+}
+
 // offsets of all index tuples in lexicographic order
 template <class troot, class... tidx>
 void offsets(const troot& root, std::vector<int64_t>& offs, tidx... idx)
@@ -87,14 +228,15 @@ void offsets(const troot& root, std::vector<int64_t>& offs, tidx... idx)
 }
 
 // every valid prefix (partial index) of length 1..rank-1: tensor(prefix), vector(prefix), matrix(prefix of length rank-2)
-template <class troot, class... tidx>
-void prefixes(const troot& root, const troot& croot, tidx... idx)
+template <class tscalar, class troot, class... tidx>
+void prefixes(troot& root, const troot& croot, tidx... idx)
 {
     constexpr auto n = sizeof...(idx);
     if constexpr (n >= 1 && n < troot::rank())
     {
         std::vector<int64_t> prefix{static_cast<int64_t>(idx)...};
-        vt::put(view_event("Sub", root, croot.tensor(idx...)).s("kind", "tensor").a("prefix", prefix));
+        // NB: every view is read through the constant overload and written through the mutable overload of the same call
+        vt::put(rw_event<tscalar>("Sub", root, croot.tensor(idx...), root.tensor(idx...)).s("kind", "tensor").a("prefix", prefix));
         {
             // Eigen vector map of the remaining dimensions
             const auto           vec = croot.vector(idx...);
@@ -115,6 +257,7 @@ void prefixes(const troot& root, const troot& croot, tidx... idx)
                 j.a("elems", elems);
             }
             j.i("sum", sum).s("kind", "vector").a("prefix", prefix);
+            add_write<tscalar>(j, root, root.vector(idx...), static_cast<int64_t>(vec.size()), full);
             vt::put(j);
         }
         if constexpr (n + 2 == troot::rank())
@@ -140,6 +283,7 @@ void prefixes(const troot& root, const troot& croot, tidx... idx)
                 j.a("elems", elems);
             }
             j.i("sum", sum).s("kind", "matrix").a("prefix", prefix);
+            add_write<tscalar>(j, root, root.matrix(idx...), static_cast<int64_t>(mat.size()), full);
             vt::put(j);
         }
     }
@@ -147,7 +291,7 @@ void prefixes(const troot& root, const troot& croot, tidx... idx)
     {
         for (tensor_size_t i = 0; i < root.template size<n>(); ++i)
         {
-            prefixes(root, croot, idx..., i);
+            prefixes<tscalar>(root, croot, idx..., i);
         }
     }
 }
@@ -191,7 +335,7 @@ void shape_case(const tensor_dims_t<trank>& dims, vt::Rng& rng, bool exhaustive)
         std::vector<int64_t> offs;
         offsets(croot, offs);
         vt::put(vt::J("Offsets").a("d", vdims(dims)).a("offs", offs).s("type", typeid(tscalar).name()));
-        prefixes(root, croot);
+        prefixes<tscalar>(root, croot);
     }
     // slices [b, e) along the first axis
     const auto n0 = dims[0];
@@ -201,38 +345,156 @@ void shape_case(const tensor_dims_t<trank>& dims, vt::Rng& rng, bool exhaustive)
         {
             if (exhaustive || rng.coin(1, std::max<int>(1, static_cast<int>(n0 * n0 / 16))))
             {
-                vt::put(view_event("Slice", root, croot.slice(b, e)).i("b", b).i("en", e));
+                // alternately through slice(begin, end) and slice(range); read through the constant, written through the mutable overload
+                static int64_t islice = 0;
+                if ((islice++) % 2 == 0)
+                {
+                    vt::put(rw_event<tscalar>("Slice", root, croot.slice(b, e), root.slice(b, e)).i("b", b).i("en", e).s("via", "begin,end"));
+                }
+                else
+                {
+                    const auto range = make_range(b, e);
+                    vt::put(rw_event<tscalar>("Slice", root, croot.slice(range), root.slice(range)).i("b", b).i("en", e).s("via", "range"));
+                }
             }
         }
     }
-    // reshapes: to rank 1, 2, 3 with explicit and inferred dimensions
+    // reshapes: to rank 1, 2, 3, 4 with explicit dimensions and one inferred dimension at every position
+    // NB: an inferred dimension next to a zero-sized one is ambiguous (0/0): not a valid access
     const auto size = root.size();
-    vt::put(view_event("Reshape", root, croot.reshape(size)).a("nd", std::vector<int64_t>{size}));
-    vt::put(view_event("Reshape", root, croot.reshape(-1)).a("nd", std::vector<int64_t>{-1}));
+    const auto reshape = [&](auto... sizes)
+    {
+        vt::put(rw_event<tscalar>("Reshape", root, croot.reshape(sizes...), root.reshape(sizes...)).a("nd", std::vector<int64_t>{sizes...}));
+    };
+    reshape(size);
+    reshape(tensor_size_t{-1});
     for (tensor_size_t a = 1; a <= std::max<tensor_size_t>(size, 1) && a <= 64; ++a)
     {
         if (size % a != 0)
         {
             continue;
         }
-        vt::put(view_event("Reshape", root, croot.reshape(a, size / a)).a("nd", std::vector<int64_t>{a, size / a}));
-        vt::put(view_event("Reshape", root, croot.reshape(a, -1)).a("nd", std::vector<int64_t>{a, -1}));
-        vt::put(view_event("Reshape", root, croot.reshape(-1, a)).a("nd", std::vector<int64_t>{-1, a}));
+        reshape(a, size / a);
+        reshape(a, tensor_size_t{-1});
+        reshape(tensor_size_t{-1}, a);
         const auto rest = size / a;
         for (tensor_size_t b = 1; b <= std::max<tensor_size_t>(rest, 1) && b <= 16; ++b)
         {
-            if (rest % b == 0 && (exhaustive || rng.coin(1, 3)))
+            if (rest % b != 0)
             {
-                vt::put(view_event("Reshape", root, croot.reshape(a, b, rest / b)).a("nd", std::vector<int64_t>{a, b, rest / b}));
-                if (rest / b != 0) // NB: an inferred dimension next to a zero-sized one is ambiguous (0/0): not a valid access
+                continue;
+            }
+            const auto c = rest / b;
+            static int64_t iform = 0; // the position of the inferred dimension rotates over the records
+            if (exhaustive || rng.coin(1, 3))
+            {
+                reshape(a, b, c);
+                if (c != 0)
                 {
-                    vt::put(view_event("Reshape", root, croot.reshape(a, -1, rest / b)).a("nd", std::vector<int64_t>{a, -1, rest / b}));
+                    reshape(a, tensor_size_t{-1}, c);
+                }
+                if ((iform++) % 2 == 0 || c == 0)
+                {
+                    reshape(a, b, tensor_size_t{-1});
+                }
+                else
+                {
+                    reshape(tensor_size_t{-1}, b, c);
+                }
+            }
+            // rank 4: every factorisation of small tensors, a sample of the larger ones
+            for (tensor_size_t c4 = 1; c4 <= std::max<tensor_size_t>(c, 1) && c4 <= 8; ++c4)
+            {
+                if (c % c4 != 0 || !(size <= 24 ? exhaustive : rng.coin(1, exhaustive ? 12 : 30)))
+                {
+                    continue;
+                }
+                const auto e4 = c / c4;
+                switch (e4 != 0 ? (iform++) % 5 : (iform++) % 2)
+                {
+                case 0: reshape(a, b, c4, e4); break;
+                case 1: reshape(a, b, c4, tensor_size_t{-1}); break;
+                case 2: reshape(tensor_size_t{-1}, b, c4, e4); break;
+                case 3: reshape(a, tensor_size_t{-1}, c4, e4); break;
+                default: reshape(a, b, tensor_size_t{-1}, e4); break;
+                }
+            }
+        }
+    }
+    // a zero-sized dimension in the leading positions of the target (the loops above start at 1)
+    if (size == 0)
+    {
+        reshape(tensor_size_t{0}, tensor_size_t{3});
+        reshape(tensor_size_t{2}, tensor_size_t{0}, tensor_size_t{5}, tensor_size_t{1});
+        reshape(tensor_size_t{0}, tensor_size_t{0}, tensor_size_t{0}, tensor_size_t{0});
+    }
+    // views of views: a slice of a map, a slice of a slice, a reshape of a slice, a sub-tensor of a slice, a reshape / slice / sub-tensor of
+    // a sub-tensor, a slice of a reshape ... (`ops`: [0, b, e] = slice, [1, i...] = tensor(i...), [2, sizes...] = reshape, [3, i...] =
+    // vector(i...), [4, i...] = matrix(i...)); read through the constant chain, written through the mutable chain
+    for (int rep = 0; rep < (exhaustive ? 1 : 3); ++rep)
+    {
+        using ops_t   = std::vector<std::vector<int64_t>>;
+        const auto b  = rng.range(0, n0), e = rng.range(b, n0);
+        const auto b2 = rng.range(0, e - b), e2 = rng.range(b2, e - b);
+        tensor_map_t<tscalar, trank>  map  = root;
+        tensor_cmap_t<tscalar, trank> cmap = croot;
+        vt::put(rw_event<tscalar>("Chain", root, cmap.slice(b, e), map.slice(b, e)).aa("ops", ops_t{{0, b, e}}));
+        vt::put(rw_event<tscalar>("Chain", root, croot.slice(b, e).slice(b2, e2), root.slice(b, e).slice(b2, e2)).aa("ops", ops_t{{0, b, e}, {0, b2, e2}}));
+        vt::put(rw_event<tscalar>("Chain", root, cmap.slice(b, e).reshape(-1), map.slice(make_range(b, e)).reshape(-1)).aa("ops", ops_t{{0, b, e}, {2, -1}}));
+        {
+            const auto bs = rng.range(0, size), es = rng.range(bs, size);
+            vt::put(rw_event<tscalar>("Chain", root, croot.reshape(-1).slice(bs, es), root.reshape(-1).slice(bs, es)).aa("ops", ops_t{{2, -1}, {0, bs, es}}));
+            if (es > bs)
+            {
+                vt::put(rw_event<tscalar>("Chain", root, croot.reshape(-1).slice(bs, es).reshape(1, -1, 1), root.reshape(-1).slice(bs, es).reshape(1, -1, 1)).aa(
+                    "ops", ops_t{{2, -1}, {0, bs, es}, {2, 1, -1, 1}}));
+                const auto i = rng.range(0, es - bs - 1);
+                vt::put(rw_event<tscalar>("Chain", root, croot.reshape(-1).slice(bs, es).reshape(-1, 1).tensor(i), root.reshape(-1).slice(bs, es).reshape(-1, 1).tensor(i)).aa(
+                    "ops", ops_t{{2, -1}, {0, bs, es}, {2, -1, 1}, {1, i}}));
+            }
+        }
+        if constexpr (trank > 1)
+        {
+            if (e > b)
+            {
+                const auto i = rng.range(0, e - b - 1);
+                vt::put(rw_event<tscalar>("Chain", root, croot.slice(b, e).tensor(i), root.slice(b, e).tensor(i)).aa("ops", ops_t{{0, b, e}, {1, i}}));
+                vt::put(rw_event<tscalar>("Chain", root, cmap.slice(b, e).reshape(e - b, -1), map.slice(b, e).reshape(e - b, -1)).aa("ops", ops_t{{0, b, e}, {2, e - b, -1}}));
+                vt::put(eigen_rw_event<tscalar>("Chain", root, croot.slice(b, e).vector(i), root.slice(b, e).vector(i), {::nano::size(dims) / n0}).aa(
+                    "ops", ops_t{{0, b, e}, {3, i}}));
+            }
+            if (n0 > 0)
+            {
+                const auto i  = rng.range(0, n0 - 1);
+                const auto n1 = dims[1];
+                const auto b1 = rng.range(0, n1), e1 = rng.range(b1, n1);
+                vt::put(rw_event<tscalar>("Chain", root, croot.tensor(i).reshape(-1), root.tensor(i).reshape(-1)).aa("ops", ops_t{{1, i}, {2, -1}}));
+                vt::put(rw_event<tscalar>("Chain", root, cmap.tensor(i).slice(b1, e1), map.tensor(i).slice(b1, e1)).aa("ops", ops_t{{1, i}, {0, b1, e1}}));
+                if constexpr (trank > 2)
+                {
+                    if (e1 > b1)
+                    {
+                        const auto j = rng.range(0, e1 - b1 - 1);
+                        vt::put(rw_event<tscalar>("Chain", root, croot.tensor(i).slice(b1, e1).tensor(j), root.tensor(i).slice(b1, e1).tensor(j)).aa(
+                            "ops", ops_t{{1, i}, {0, b1, e1}, {1, j}}));
+                    }
+                    if (n1 > 0)
+                    {
+                        const auto j = rng.range(0, n1 - 1);
+                        vt::put(rw_event<tscalar>("Chain", root, cmap.tensor(i).tensor(j), map.tensor(i).tensor(j)).aa("ops", ops_t{{1, i}, {1, j}}));
+                    }
+                }
+                if constexpr (trank == 3)
+                {
+                    vt::put(eigen_rw_event<tscalar>("Chain", root, croot.slice(i, n0).matrix(0), root.slice(i, n0).matrix(0), {dims[1], dims[2]}).aa(
+                        "ops", ops_t{{0, i, n0}, {4, 0}}));
                 }
             }
         }
     }
     // gather along the first axis: random index lists with repetitions, and the structured ones an implementation may special-case
     // (sorted with repetitions, contiguous ranges, reversed ranges, a single repeated index)
+    const auto extra_pattern = static_cast<int>(rng.range(0, 3));
     for (int pattern = 0; pattern < 4 && n0 > 0; ++pattern)
     {
         indices_t indices(rng.range(pattern == 0 ? 0 : 1, 6));
@@ -274,6 +536,54 @@ void shape_case(const tensor_dims_t<trank>& dims, vt::Rng& rng, bool exhaustive)
         {
             vt::put(vt::J("Gather").a("d", vdims(dims)).a("indices", std::vector<int64_t>(indices.begin(), indices.end())).a("dims", vdims(sub.dims())).a(
                 "elems", elems).b("aliases", sub.size() > 0 && sub.data() >= root.data() && sub.data() < root.data() + root.size()));
+            // the other forms: converting to another scalar type, into an owning tensor already in use (of another shape), and into a given
+            // mutable map (here: the middle of a larger buffer whose other elements must stay as they are)
+            using tother = std::conditional_t<std::is_same_v<tscalar, double>, int64_t, double>;
+            if (pattern != extra_pattern)
+            {
+                continue;
+            }
+            const auto ivec = std::vector<int64_t>(indices.begin(), indices.end());
+            const auto gather_event = [&](const char* form, const auto& result, const bool guards)
+            {
+                std::vector<int64_t> relems;
+                int64_t              rsum = 0;
+                read_all(result, relems, rsum);
+                vt::put(vt::J("GatherInto").s("form", form).a("d", vdims(dims)).a("indices", ivec).a("dims", vdims(result.dims())).a("elems", relems).b(
+                    "aliases", false).b("guards", guards));
+            };
+            gather_event("indexed<other>(indices)", croot.template indexed<tother>(indices), true);
+            {
+                auto udims = dims;
+                udims.fill(2);
+                tensor_mem_t<tscalar, trank> used(udims);
+                used.full(static_cast<tscalar>(1));
+                croot.indexed(indices, used);
+                gather_event("indexed(indices, used tensor_mem_t&)", used, true);
+                tensor_mem_t<tother, trank> usedo(udims);
+                usedo.full(static_cast<tother>(1));
+                croot.template indexed<tother>(indices, usedo);
+                gather_event("indexed<other>(indices, used tensor_mem_t&)", usedo, true);
+            }
+            {
+                const tensor_size_t          pad = 3;
+                tensor_mem_t<tscalar, 1>     buffer(sub.size() + 2 * pad);
+                tensor_mem_t<tother, 1>      buffero(sub.size() + 2 * pad);
+                buffer.full(static_cast<tscalar>(77));
+                buffero.full(static_cast<tother>(77));
+                tensor_map_t<tscalar, trank> into(buffer.data() + pad, sub.dims());
+                tensor_map_t<tother, trank>  intoo(buffero.data() + pad, sub.dims());
+                croot.indexed(indices, into);
+                croot.template indexed<tother>(indices, intoo);
+                bool guards = true, guardso = true;
+                for (tensor_size_t k = 0; k < pad; ++k)
+                {
+                    guards  = guards && buffer(k) == static_cast<tscalar>(77) && buffer(pad + sub.size() + k) == static_cast<tscalar>(77);
+                    guardso = guardso && buffero(k) == static_cast<tother>(77) && buffero(pad + sub.size() + k) == static_cast<tother>(77);
+                }
+                gather_event("indexed(indices, tensor_map_t)", into, guards && into.data() == buffer.data() + pad);
+                gather_event("indexed<other>(indices, tensor_map_t)", intoo, guardso && intoo.data() == buffero.data() + pad);
+            }
         }
     }
     // storage conversions
@@ -303,12 +613,40 @@ void shape_case(const tensor_dims_t<trank>& dims, vt::Rng& rng, bool exhaustive)
         {
             same = copy(i) == root(i) && copy2(i) == root(i) && map(i) == root(i) && cmap(i) == root(i) && cmap2(i) == root(i);
         }
-        vt::put(vt::J("Storage").a("d", vdims(dims)).b("mapAliases", map.data() == root.data()).b("cmapAliases", cmap.data() == root.data() && cmap2.data() == root.data()).b(
+        // assignments to a mutable map copy the contents into the mapped buffer: the map keeps its seat, the source is not changed
+        bool assignCopies = true, assignKeepsSeat = true;
+        {
+            tensor_mem_t<tscalar, trank> dst1(dims), dst2(dims), dst3(dims), dst4(dims);
+            for (auto* dst : {&dst1, &dst2, &dst3, &dst4})
+            {
+                dst->full(static_cast<tscalar>(99));
+            }
+            tensor_map_t<tscalar, trank> dmap1 = dst1, dmap2 = dst2, dmap3 = dst3, dmap4 = dst4;
+            dmap1 = croot;                                   // = tensor_mem_t
+            dmap2 = cmap;                                    // = tensor_cmap_t
+            dmap3 = map;                                     // = tensor_map_t
+            dmap4 = tensor_map_t<tscalar, trank>(root);      // = tensor_map_t&&
+            assignKeepsSeat = dmap1.data() == dst1.data() && dmap2.data() == dst2.data() && dmap3.data() == dst3.data() && dmap4.data() == dst4.data() &&
+                              dmap1.dims() == dims && dmap2.dims() == dims && dmap3.dims() == dims && dmap4.dims() == dims &&
+                              (root.size() == 0 || (dst1.data() != root.data() && dst2.data() != root.data() && dst3.data() != root.data() && dst4.data() != root.data()));
+            for (tensor_size_t i = 0; assignCopies && i < root.size(); ++i)
+            {
+                assignCopies = root(i) == static_cast<tscalar>(i) && dst1(i) == root(i) && dst2(i) == root(i) && dst3(i) == root(i) && dst4(i) == root(i);
+            }
+            // ... and writing through the assigned map afterwards reaches its own buffer only
+            if (root.size() > 0)
+            {
+                dmap1(0) = static_cast<tscalar>(55);
+                assignCopies = assignCopies && dst1(0) == static_cast<tscalar>(55) && root(0) == static_cast<tscalar>(0);
+            }
+        }
+        vt::put(vt::J("Storage").a("d", vdims(dims)).b("mapAssignCopies", assignCopies).b("mapAssignKeepsSeat", assignKeepsSeat).b("mapAliases", map.data() == root.data()).b("cmapAliases", cmap.data() == root.data() && cmap2.data() == root.data()).b(
             "copyOwns", root.size() == 0 || (copy.data() != root.data() && copy2.data() != root.data())).b("sameContents", same).b(
             "sameDims", map.dims() == dims && cmap.dims() == dims));
     }
     // summed-area table: input scalars narrower than the output scalar, with prefix sums that do not fit the input type
-    if (root.size() > 0 && root.size() <= 200)
+    // NB: also for empty tensors of every rank (nothing to compute, nothing may be touched: the sanitizers decide)
+    if (root.size() <= 200)
     {
         switch (rng.range(0, 5))
         {
@@ -469,6 +807,115 @@ void misc_cases(vt::Rng& rng)
             ok = sv(r) == (r < r1 ? v1(r) : v2(r - r1));
         }
         vt::put(vt::J("Stack").b("ok", ok));
+    }
+    // stack: further layouts (three or more blocks per row, other column partitions per row, full-width rows, transposed vectors, Eigen
+    // expressions and maps as blocks) compared with a naive element-wise placement of the blocks
+    for (int i = 0; i < 12; ++i)
+    {
+        using matrix_t = tensor_mem_t<double, 2>;
+        using vector_t = tensor_mem_t<double, 1>;
+        const auto nan = std::numeric_limits<double>::quiet_NaN();
+        const auto rmat = [&](const tensor_size_t rows, const tensor_size_t cols)
+        {
+            matrix_t m(rows, cols);
+            for (tensor_size_t k = 0; k < m.size(); ++k)
+            {
+                m(k) = static_cast<double>(rng.range(-99, 99));
+            }
+            return m;
+        };
+        const auto rvec = [&](const tensor_size_t rows)
+        {
+            vector_t v(rows);
+            for (tensor_size_t k = 0; k < v.size(); ++k)
+            {
+                v(k) = static_cast<double>(rng.range(-99, 99));
+            }
+            return v;
+        };
+        // naive construction: every element placed on its own, exactly once
+        const auto place = [&](matrix_t& ex, const tensor_size_t row, const tensor_size_t col, const tensor_size_t rows, const tensor_size_t cols, const auto& value)
+        {
+            bool once = true;
+            for (tensor_size_t r = 0; r < rows; ++r)
+            {
+                for (tensor_size_t c = 0; c < cols; ++c)
+                {
+                    once               = once && std::isnan(ex(row + r, col + c));
+                    ex(row + r, col + c) = value(r, c);
+                }
+            }
+            return once;
+        };
+        const auto same = [&](const matrix_t& sm, const matrix_t& ex)
+        {
+            bool ok = sm.dims() == ex.dims();
+            for (tensor_size_t k = 0; ok && k < ex.size(); ++k)
+            {
+                ok = !std::isnan(ex(k)) && sm(k) == ex(k);
+            }
+            return ok;
+        };
+        const auto r1 = rng.range(1, 4), r2 = rng.range(1, 4), c1 = rng.range(1, 4), c2 = rng.range(1, 3), c3 = rng.range(1, 3);
+        const auto cols = c1 + c2 + c3;
+        {
+            // [A | 2 B ; C | D^T | E(map) ; v^T]
+            const auto ca = rng.range(1, cols - 1);
+            const auto A = rmat(r1, ca), B = rmat(r1, cols - ca), C = rmat(r2, c1), D = rmat(c2, r2), E = rmat(r2, c3);
+            const auto v = rvec(cols);
+            const tensor_cmap_t<double, 2> Emap = E;
+            const auto sm = stack<double>(r1 + r2 + 1, cols, A, 2.0 * B.matrix(), C, D.matrix().transpose(), Emap, v.vector().transpose());
+            matrix_t   ex(r1 + r2 + 1, cols);
+            ex.full(nan);
+            bool ok = place(ex, 0, 0, r1, ca, [&](auto r, auto c) { return A(r, c); });
+            ok      = place(ex, 0, ca, r1, cols - ca, [&](auto r, auto c) { return 2.0 * B(r, c); }) && ok;
+            ok      = place(ex, r1, 0, r2, c1, [&](auto r, auto c) { return C(r, c); }) && ok;
+            ok      = place(ex, r1, c1, r2, c2, [&](auto r, auto c) { return D(c, r); }) && ok;
+            ok      = place(ex, r1, c1 + c2, r2, c3, [&](auto r, auto c) { return E(r, c); }) && ok;
+            ok      = place(ex, r1 + r2, 0, 1, cols, [&](auto, auto c) { return v(c); }) && ok;
+            vt::put(vt::J("Stack").b("ok", ok && same(sm, ex)).s("layout", "[A|2B; C|D^T|E; v^T]"));
+        }
+        {
+            // full-width rows: [M ; constant ; N ; zero ; identity]
+            const auto M = rmat(r1, cols), N = rmat(r2, cols);
+            const auto sm = stack<double>(r1 + r2 + 2 + cols, cols, M, matrix_t::constant(1, cols, 7.0), N.matrix(), matrix_t::zero(1, cols), matrix_t::identity(cols, cols));
+            matrix_t   ex(r1 + r2 + 2 + cols, cols);
+            ex.full(nan);
+            bool ok = place(ex, 0, 0, r1, cols, [&](auto r, auto c) { return M(r, c); });
+            ok      = place(ex, r1, 0, 1, cols, [&](auto, auto) { return 7.0; }) && ok;
+            ok      = place(ex, r1 + 1, 0, r2, cols, [&](auto r, auto c) { return N(r, c); }) && ok;
+            ok      = place(ex, r1 + 1 + r2, 0, 1, cols, [&](auto, auto) { return 0.0; }) && ok;
+            ok      = place(ex, r1 + 2 + r2, 0, cols, cols, [&](auto r, auto c) { return r == c ? 1.0 : 0.0; }) && ok;
+            vt::put(vt::J("Stack").b("ok", ok && same(sm, ex)).s("layout", "[M; const; N; zero; I]"));
+        }
+        {
+            // vectors as columns, four blocks per row: [v1 | A | v2 | -v3 ; B]
+            const auto v1 = rvec(r1), v2 = rvec(r1), v3 = rvec(r1);
+            const auto A = rmat(r1, c1), B = rmat(r2, c1 + 3);
+            const tensor_cmap_t<double, 1> v2map = v2;
+            const auto sm = stack<double>(r1 + r2, c1 + 3, v1, A, v2map, -v3.vector(), B);
+            matrix_t   ex(r1 + r2, c1 + 3);
+            ex.full(nan);
+            bool ok = place(ex, 0, 0, r1, 1, [&](auto r, auto) { return v1(r); });
+            ok      = place(ex, 0, 1, r1, c1, [&](auto r, auto c) { return A(r, c); }) && ok;
+            ok      = place(ex, 0, c1 + 1, r1, 1, [&](auto r, auto) { return v2(r); }) && ok;
+            ok      = place(ex, 0, c1 + 2, r1, 1, [&](auto r, auto) { return -v3(r); }) && ok;
+            ok      = place(ex, r1, 0, r2, c1 + 3, [&](auto r, auto c) { return B(r, c); }) && ok;
+            vt::put(vt::J("Stack").b("ok", ok && same(sm, ex)).s("layout", "[v1|A|v2|-v3; B]"));
+        }
+        {
+            // vector of segments: tensors, maps and Eigen expressions
+            const auto v1 = rvec(r1), v2 = rvec(r2), v3 = rvec(c1);
+            const tensor_cmap_t<double, 1> v3map = v3;
+            const auto sv = stack<double>(r1 + r2 + c2 + c1, v1, 2.0 * v2.vector(), vector_t::constant(c2, 1.5), v3map);
+            bool       ok = sv.size() == r1 + r2 + c2 + c1;
+            for (tensor_size_t r = 0; ok && r < sv.size(); ++r)
+            {
+                const auto expected = r < r1 ? v1(r) : r < r1 + r2 ? 2.0 * v2(r - r1) : r < r1 + r2 + c2 ? 1.5 : v3(r - r1 - r2 - c2);
+                ok                  = sv(r) == expected;
+            }
+            vt::put(vt::J("Stack").b("ok", ok).s("layout", "vector [v1; 2 v2; const; v3]"));
+        }
     }
 }
 } // namespace
